@@ -63,6 +63,28 @@ def gen_records(rng, numeric=False, nested=False):
     return recs
 
 
+def gen_orders(rng):
+    """outer records that share few key values, each with a (possibly empty / missing) inner list whose records share
+    few key values too: chained selections then select in several parents"""
+    kv = rng.sample(SVALS, 2)
+    iv = rng.sample(SVALS, 3)
+    recs = []
+    for _ in range(rng.choice([1, 2, 3, 4, 5])):
+        r = {}
+        for f in rng.sample(FIELDS, rng.choice([2, 3, 4])) + (["id"] if rng.random() < 0.85 else []):
+            r[f] = rng.choice(kv)
+        if rng.random() < 0.85:
+            items = []
+            for _ in range(rng.choice([0, 1, 2, 3, 4])):
+                it = {}
+                for f in rng.sample(FIELDS, rng.choice([2, 3, 4])) + (["sku"] if rng.random() < 0.85 else []):
+                    it[f] = rng.choice(iv)
+                items.append(it)
+            r["items"] = items
+        recs.append(r)
+    return recs
+
+
 def wrap_at_depth(rng, recs, depth):
     """tree with the record list at path P (depth keys / indexes)"""
     pos = []
@@ -136,13 +158,7 @@ def make_xp(P, form, k, f, vlit):
 
 
 def classify(c):
-    """known-finding class of a case (None = inside the scope where the property must hold)"""
-    if c.get("chained"):
-        # C06-e: a predicate applied to an EMPTY list raises IndexError instead of being a miss; below an outer
-        # selection the exception leaves the fan-out loop and takes the selections of the other parents with it
-        recs = X.get_at(c["tree"], c["pos"])
-        if any(isinstance(r, dict) and r.get("id") == c["v1"] and r.get("items") == [] for r in recs):
-            return "C06-e"
+    """known-finding class of a case (None = inside the scope where the property must hold); no open finding"""
     return None
 
 
@@ -183,26 +199,58 @@ def check_select(c):
     return None
 
 
-def check_chained(c):
-    """orders[id=X]/items[sku=Y]/q : nested list of per-parent selections"""
-    o = X.convert(c["tree"], c["mode"])
-    recs = X.get_at(c["tree"], c["pos"])
+OPS = {"eq": "=", "ne": "!=", "contains": "~"}
+
+
+def passes(op, x, v):
+    if op == "eq":
+        return field_eq(x, v)
+    if op == "ne":
+        return not field_eq(x, v)
+    return isinstance(x, str) and v in x
+
+
+def chained_oracle(recs, c):
+    """P[k1 op1 v1]/items[k op v]/f : nested list of per-parent selections (parents with nothing selected left out)"""
     want = []
     for r in recs:
-        if r.get("id") == c["v1"] and "items" in r:
-            sel = [it[c["f"]] for it in r["items"] if it.get(c["k"]) == c["v"] and c["f"] in it]
+        if c["k1"] in r and passes(c.get("op1", "eq"), r[c["k1"]], c["v1"]) and "items" in r:
+            sel = [it[c["f"]] for it in r["items"] if c["k"] in it and passes(c.get("op", "eq"), it[c["k"]], c["v"]) and c["f"] in it]
             if sel:
                 want.append(sel)
+    return want
+
+
+def check_chained(c):
+    o = X.convert(c["tree"], c["mode"])
+    recs = X.get_at(c["tree"], c["pos"])
+    want = chained_oracle(recs, c)
     g = core.call(lambda: o.get(c["xp"], "DFLT"))
     if g[0] != "ok":
         return {"get_raised": g[1]}
-    flat_want = want
+    it = core.call(lambda: o[c["xp"]])
     if not want:
-        return None if g[1] == "DFLT" else {"want": "miss", "got": repr(g[1])[:200]}
+        if g[1] != "DFLT":
+            return {"want": "miss", "got": repr(g[1])[:200]}
+        if it[0] == "ok":
+            return {"want": "miss", "item_access_returned": repr(it[1])[:200]}
+        return None
     got = g[1]
     norm = [list(x) if isinstance(x, list) else x for x in got] if isinstance(got, list) else got
-    if norm != flat_want:
-        return {"want": flat_want, "got": repr(got)[:200]}
+    if norm != want:
+        return {"want": want, "got": repr(got)[:200]}
+    # the selected values are the objects stored in the tree (of the right parent)
+    src = [itm[c["f"]] for r in X.get_at(o, c["pos"]) if isinstance(r, dict) for itm in r.get("items", []) if c["f"] in itm]
+    for sel in got:
+        for x in sel:
+            if not any(x is y for y in src):
+                return {"value_not_from_tree": repr(x)}
+    if it[0] != "ok" or [list(x) if isinstance(x, list) else x for x in it[1]] != want:
+        return {"want": want, "item_access": repr(it)[:200]}
+    # the same lookup again on the same object (the resolver keeps no state between lookups)
+    g2 = core.call(lambda: o.get(c["xp"], "DFLT"))
+    if g2[0] != "ok" or [list(x) if isinstance(x, list) else x for x in g2[1]] != want:
+        return {"want": want, "second_get": repr(g2)[:200]}
     return None
 
 
@@ -288,23 +336,37 @@ def run(ctx):
         xp = make_xp(P, form, k, f, lit(rng, vs, q))
         cases.append({"tree": tree, "mode": rng.choice(["n0", "wrap"]), "pos": pos, "form": form, "k": k, "f": f, "v": v if isinstance(v, str) else vs, "xp": xp})
     ctx.evaluate("select", cases, check_select, in_known=in_known, nontrivial=lambda c: len(X.get_at(c["tree"], c["pos"])) > 1)
-    for _ in range(ctx.budget(200, 5000)):
-        recs = gen_records(rng, nested=True)
-        tree, pos = wrap_at_depth(rng, recs, rng.choice([0, 1]))
-        P = X.render_rel(tree, pos)
-        ids = [r["id"] for r in recs if "id" in r and "items" in r]
+    for _ in range(ctx.budget(400, 8000)):
+        recs = gen_orders(rng) if rng.random() < 0.65 else gen_records(rng, nested=True, numeric=rng.random() < 0.2)
+        tree, pos = wrap_at_depth(rng, recs, rng.choice([0, 1, 2, 3]))
+        P = X.render_rel(tree, pos) if rng.random() < 0.6 else X.render(rng, tree, pos)
+        k1 = "id" if rng.random() < 0.6 else rng.choice(FIELDS)
+        ids = [r[k1] for r in recs if k1 in r and "items" in r]
         v1 = rng.choice(ids) if ids and rng.random() < 0.8 else rng.choice(SVALS)
-        its = [it for r in recs for it in r.get("items", []) if it]
-        if its and rng.random() < 0.8:
+        if isinstance(v1, float):
+            v1 = "1"
+        op1 = rng.choice(["eq", "eq", "eq", "ne", "contains"])
+        op = rng.choice(["eq", "eq", "eq", "ne", "contains"])
+        sel_par = [r for r in recs if k1 in r and passes(op1, r[k1], str(v1))]
+        its = [it for r in (sel_par if rng.random() < 0.8 else recs) for it in r.get("items", []) if it]
+        if its and rng.random() < 0.85:
             it = rng.choice(its)
-            k = rng.choice(list(it))
+            k = "sku" if "sku" in it and rng.random() < 0.5 else rng.choice(list(it))
             v = it[k]
             f = rng.choice(list(it))
         else:
             k, f, v = rng.choice(FIELDS), rng.choice(FIELDS), rng.choice(SVALS)
-        xp = "%s[id=%s]/items[%s=%s]/%s" % (P, v1, k, v, f)
-        chained.append({"tree": tree, "mode": "n0", "pos": pos, "chained": True, "v1": v1, "k": k, "f": f, "v": v, "xp": xp, "form": "chained"})
-    ctx.evaluate("chained", chained, check_chained, in_known=in_known)
+        q1, q2 = rng.choice(["", "s", "d"]), rng.choice(["", "s", "d"])
+        v1s, vs = str(v1), str(v)
+        if " " in v1s and q1 == "":
+            q1 = "d"
+        if " " in vs and q2 == "":
+            q2 = "s"
+        xp = "%s[%s%s%s]/items[%s%s%s]/%s" % (P, k1, OPS[op1], lit(rng, v1s, q1), k, OPS[op], lit(rng, vs, q2), f)
+        chained.append({"tree": tree, "mode": rng.choice(["n0", "wrap"]), "pos": pos, "chained": True, "k1": k1, "op1": op1, "v1": v1s,
+                        "k": k, "op": op, "f": f, "v": vs, "xp": xp, "form": "chained"})
+    ctx.evaluate("chained", chained, check_chained, in_known=in_known,
+                 nontrivial=lambda c: len(chained_oracle(X.get_at(c["tree"], c["pos"]), c)) > 0)
     rng = ctx.rng("kinds")
     lk = [dict(xp=c["xp"], tree=c["tree"], mode=c["mode"], kind=rng.choice("gif"), d=rng.choice([None, "D"])) for c in cases + chained]
 
